@@ -71,7 +71,13 @@ Disconnect(c) ==    \* connectionLost: the client went away at any point, or the
     /\ told' = {}
     /\ UNCHANGED req
 
-Next == \E c \in C : Request(c) \/ Poll(c) \/ Release(c) \/ Disconnect(c)
+Reopen(c) ==        \* the holder closes and reopens the database under the lock (Worker._do_copy, the archive step):
+                    \* nothing about the lock changes
+    /\ has[c] /\ ph[c] = "open"
+    /\ told' = {}
+    /\ UNCHANGED <<lock, has, req, ph, stopped>>
+
+Next == \E c \in C : Request(c) \/ Poll(c) \/ Release(c) \/ Disconnect(c) \/ Reopen(c)
 Spec == Init /\ [][Next]_vars
 
 Waiting(c) == req[c] /\ ph[c] = "open" /\ ~has[c] /\ ~stopped[c]
